@@ -1,4 +1,5 @@
 (* C18 - attribute access on dicts and plugin configuration (Model/C18_Attr.v). *)
+From Coq Require Import String.
 From PlzV Require Import Base.Harness Base.StrFacts Model.C16_Syntax Model.C16_Ops Model.C16_Prim Model.C16_Eval Model.C16.
 From PlzV Require Import Gen.C18Pins Model.C18_Config Model.C18_Attr Model.C18.
 From PlzV Require Import Proof.C18_Config.
@@ -165,3 +166,56 @@ Proof.
   intros mode name fs c st v H. unfold load_plugin_config. rewrite H. eexists. split; [reflexivity|].
   intros k. unfold cfg_get. cbn [c_overlay c_base]. destruct (c_overlay c); reflexivity.
 Qed.
+
+(* ================================================================ witnesses *)
+(* one heap: array 0 = [3, 1]; dict 0 = TOOLS = {"keys": [3, 1], "go": 1}; dict 1 = its frozen copy (pyDict.Freeze);
+   dict 2 = {"setdefault": 5} *)
+Definition attr_demo : state * value :=
+  let '(sl, st1) := alloc_list [VInt 3; VInt 1] 2 empty_state in
+  let '(i, st2) := alloc_dict [(s "keys", VList sl); (s "go", VInt 1)] st1 in
+  match freeze 8 (VDict i) st2 with
+  | Ok (fv, st3) => (snd (alloc_dict [(s "setdefault", VInt 5)] st3), fv)
+  | _ => (st2, VNone)
+  end.
+
+(* the order a wrapper must NOT use: the method table before the keys *)
+Definition method_first_prog : prop_prog := PIfMethod ["setdefault"%string] PDelegate.
+
+Lemma attr_demo_twin : twin (fst attr_demo) (VDict 0) (snd attr_demo).
+Proof.
+  change (snd attr_demo) with (VFrozenDict 1).
+  assert (D0 : dict_of (fst attr_demo) 0 = [(s "keys", VList (Slice 0 0 2 2)); (s "go", VInt 1)]) by reflexivity.
+  assert (D1 : dict_of (fst attr_demo) 1 = [(s "keys", VFrozenList (Slice 0 0 2 2)); (s "go", VInt 1)]) by reflexivity.
+  apply TwDict; rewrite D0, D1; cbn [env_get].
+  - intros k a. destruct (str_eqb k (s "keys")).
+    + intros H. inversion H. subst. eexists. split; [reflexivity|apply TwList].
+    + destruct (str_eqb k (s "go")); [|discriminate].
+      intros H. inversion H. subst. eexists. split; [reflexivity|apply TwRefl].
+  - intros k. destruct (str_eqb k (s "keys")); [discriminate|]. destruct (str_eqb k (s "go")); [discriminate|reflexivity].
+Qed.
+
+Lemma attr_demo_ok :
+  twin (fst attr_demo) (VDict 0) (snd attr_demo)
+  /\ resolve (fst attr_demo) (VDict 0) [AProp (s "keys")] = Ok (VList (Slice 0 0 2 2))
+  /\ resolve (fst attr_demo) (snd attr_demo) [AProp (s "keys")] = Ok (VFrozenList (Slice 0 0 2 2))
+  /\ prop_eval method_first_prog method_table (PVal (VInt 0)) [(s "keys", VInt 0)] (s "keys") = PMethodOf (s "keys")
+  /\ dict_property (fst attr_demo) (VFrozenDict 2) (s "setdefault") = PPanicked
+  /\ dict_property (fst attr_demo) (VDict 2) (s "setdefault") = PVal (VInt 5).
+Proof. split; [exact attr_demo_twin|]. vm_compute. repeat split. Qed.
+
+(* plugin foo: flags (repeatable) = ["-b", "-a"], tool = "footool"; X = CONFIG.FOO.FLAGS *)
+Definition plugin_demo (mode : plugin_store_mode) : res value :=
+  let fs := [PField (s "flags") [s "-b"; s "-a"] None true false; PField (s "tool") [s "footool"] None false false] in
+  match load_plugin_config mode (s "foo") fs (cfg_copy (Config case_base None false)) empty_state with
+  | Ok (c, st) => match cfg_read RProp (s "FOO") c with
+                  | Ok d => resolve st d [AProp (s "FLAGS")]
+                  | Err e => Err e
+                  | OutOfFuel => OutOfFuel
+                  end
+  | Err e => Err e
+  | OutOfFuel => OutOfFuel
+  end.
+
+Lemma plugin_demo_ok :
+  plugin_demo plugin_store = Ok (VList (Slice 0 0 2 2)) /\ plugin_demo PStoreFrozen = Ok (VFrozenList (Slice 0 0 2 2)).
+Proof. vm_compute. split; reflexivity. Qed.
